@@ -128,7 +128,7 @@ def shrink(c):
 
 
 # ---- command-line glue: a multi-alignment Phylip input must be treated as its alignments one by one (`detmulti`) ----
-MULTI_CMDS = [['compress', '--weight-out', 'w.txt'], ['compress'], ['dedup'], ['dedup', '-l', 'd.log'], ['dedup', '--n-as-gap']]
+MULTI_CMDS = [['compress', '--weight-out', 'w.txt'], ['compress'], ['dedup', 'dedup-files'], ['dedup', '-l', 'd.log'], ['dedup', '--n-as-gap']]
 
 
 def gen(rng, tier):
@@ -136,10 +136,10 @@ def gen(rng, tier):
     for c in _gen_core(rng, tier):
         yield c
     from driver import cligen
-    for c in cligen.cases(rng, ['dedup'], 40 if tier == "quick" else 400):
+    for c in cligen.cases(rng, ['dedup', 'dedup-files'], 40 if tier == "quick" else 400):
         yield c
     for _ in range(3 if tier == "quick" else 30):
-        for flagname, argv in [('--weight-out', ['compress']), ('-l', ['dedup']), ('-o', ['compress']), ('-o', ['dedup'])]:
+        for flagname, argv in [('--weight-out', ['compress']), ('-l', ['dedup', 'dedup-files']), ('-o', ['compress']), ('-o', ['dedup', 'dedup-files'])]:
             rows = cligen.alignment(rng)
             yield Case("detgz", [cligen.esc(cligen.fasta(rows)), flagname] + argv, True, "cli-gz-" + argv[0] + flagname)
     for _ in range(2 if tier == "quick" else 20):
